@@ -135,7 +135,10 @@ def search(chk, broken):
         none_ = fire([])
         left = fire([pbc.Wind(v, U.Degree(90))])
         head, tail = fire([pbc.Wind(v, U.Degree(180))]), fire([pbc.Wind(v, U.Degree(0))])
-        if len(none_) == len(left) == len(head) == len(tail) and len(none_) > 2 and not vacuum:
+        # (all four runs complete: the last rows are then rows at the SAME distance; the terminal rows of range errors are not)
+        complete = all(abs((rr[-1].distance >> U.Foot) - (none_[-1].distance >> U.Foot)) < 1e-6 and (rr[-1].distance >> U.Foot) >= R - 1e-6
+                       for rr in (none_, left, head, tail) if rr)
+        if complete and len(none_) == len(left) == len(head) == len(tail) and len(none_) > 2 and not vacuum:
             if not all(r.windage.raw_value > 0 for r in left[1:]):
                 chk.failures.append(Failure('left-wind', 'a wind from the left does not deflect to the right', {'op': 'left-wind'}))
             nl, hl, tl = none_[-1], head[-1], tail[-1]
